@@ -44,7 +44,7 @@ Member gen_group_value(Entropy &e) {
             static const char *s1[] = {"a", "b", "x y", "zz", "1"};
             // (twins == 2: two group names whose hash has no bit set but the top one - the value the library forces on, next to the removed-slot marker 0)
             static const char *s2[] = {"a", "c9xpkftaLi2gmsLp", "x y", "jnuroqnsjroafpiy", "1"};
-            const char *const *s    = (kGroupKey[1] != 0) ? s2 : s1;
+            const char *const *s    = (kGroupKey[1] != 0 || kGroupKey[0] == 't') ? s2 : s1;
             m.kind                  = 1;
             m.s                     = s[e.below(5)];
             m.json                  = "\"" + m.s + "\"";
@@ -169,7 +169,7 @@ template <typename Char_T>
 Scenario make_scenario(const Case &c, Value<Char_T> &arr) {
     Entropy  e(c.bytes);
     Scenario sc;
-    kGroupKey  = (c.twins == 2) ? "year" : "g";
+    kGroupKey  = (c.twins == 2) ? "year" : (c.twins == 3) ? "t" : "g";
     unsigned n = e.below(13);
     arr        = Value<Char_T>{ValueType::Array};
     size_t first_pos = size_t(-1);
@@ -180,7 +180,9 @@ Scenario make_scenario(const Case &c, Value<Char_T> &arr) {
         // plan: other members (distinct keys), the group key at a random position, an id, optional removed members
         static const char *names1[] = {"m", "n", "p", "q", "y"};
         static const char *names2[] = {"pear", "jnuroqnsjroafpiy", "dear", "q", "fear"};
-        const char *const *names    = (c.twins == 2) ? names2 : names1;
+        // twins == 3: the grouping member is "t" and a sibling is named "ti" - the grouping key plus one unit, with the same hash
+        static const char *names3[] = {"ti", "tj", "m", "q", "tix"};
+        const char *const *names    = (c.twins == 2) ? names2 : (c.twins == 3) ? names3 : names1;
         unsigned           others   = e.below(5);
         std::vector<Member> plan;
         for (unsigned k = 0; k < others; ++k) {
@@ -258,7 +260,7 @@ struct H {
     static const char *name() { return "C18 group by"; }
     static rc::Gen<Case> gen() {
         using namespace rc;
-        return gen::map(gen::tuple(gen::resize(200, gen::container<std::vector<uint8_t>>(gen::arbitrary<uint8_t>())), pbt::pick<int>({0, 0, 1, 2}), pbt::pick<int>({1, 1, 2, 4, 3})),
+        return gen::map(gen::tuple(gen::resize(200, gen::container<std::vector<uint8_t>>(gen::arbitrary<uint8_t>())), pbt::pick<int>({0, 0, 1, 2, 3}), pbt::pick<int>({1, 1, 2, 4, 3})),
                         [](std::tuple<std::vector<uint8_t>, int, int> t) {
                             Case c;
                             c.bytes = std::get<0>(t);
@@ -271,7 +273,7 @@ struct H {
     static bool from_fuzz(const uint8_t *d, size_t n, Case &c) {
         pbt::FuzzBytes f(d, n);
         const uint8_t sel = f.sel();
-        c.twins = (sel % 3) == 0 ? 1 : ((sel % 3) == 1 && (sel & 0x40) != 0) ? 2 : 0;
+        c.twins = (sel % 3) == 0 ? 1 : ((sel % 3) == 1 && (sel & 0x40) != 0) ? 2 : ((sel % 3) == 2 && (sel & 0x40) != 0) ? 3 : 0;
         c.width = ((sel >> 4) & 3) == 1 ? 2 : ((sel >> 4) & 3) == 2 ? 4 : 1;
         c.bytes = f.rest();
         return true;
